@@ -206,6 +206,70 @@ theorem eqPropRaw_bounds_mem (par : Parent ℝ) (s : DD ℝ) (hn : 1 ≤ s.n) (h
     have := grid_mem s.dom.lo s.dom.hi s.n (i + 1) hl hn (by omega)
     simpa [nat_eq] using this
 
+theorem pairs_mem : ∀ (l : List ℝ) (p : ℝ × ℝ), p ∈ pairs l → p.1 ∈ l ∧ p.2 ∈ l
+  | [], p, h => by simp [pairs] at h
+  | [_], p, h => by simp [pairs] at h
+  | a :: b :: t, p, h => by
+    simp only [pairs, List.mem_cons] at h
+    rcases h with rfl | h
+    · simp
+    · have := pairs_mem (b :: t) p h
+      exact ⟨List.mem_cons_of_mem _ this.1, List.mem_cons_of_mem _ this.2⟩
+
+theorem meanValue_hull (par : Parent ℝ) (ec lo hi : ℝ) (p : ℝ × ℝ) (h1 : lo ≤ p.1 ∧ p.1 ≤ hi) (h2 : lo ≤ p.2 ∧ p.2 ≤ hi) :
+    lo ≤ meanValue par ec p ∧ meanValue par ec p ≤ hi := by
+  unfold meanValue
+  simp only [two_eq]
+  split
+  · constructor <;> linarith [h1.1, h1.2, h2.1, h2.2]
+  · rename_i hh
+    simp only [Bool.not_eq_true', Bool.and_eq_false_iff, not_or, Bool.not_eq_false, ScalarReal.geb_iff, ScalarReal.leb_iff] at hh
+    constructor <;> linarith [h1.1, h1.2, h2.1, h2.2, hh.1, hh.2]
+
+theorem midValue_hull (lo hi : ℝ) (p : ℝ × ℝ) (h1 : lo ≤ p.1 ∧ p.1 ≤ hi) (h2 : lo ≤ p.2 ∧ p.2 ≤ hi) :
+    lo ≤ midValue p ∧ midValue p ≤ hi := by
+  unfold midValue; simp only [two_eq]; constructor <;> linarith [h1.1, h1.2, h2.1, h2.2]
+
+/-- mean-valued classes (and the uniform fallback), where the precision does not interfere: every
+class value lies in the domain — for *every* parent (a class mean outside its bounds is replaced
+by their midpoint, and the bounds are clamped into the domain) -/
+theorem eqProp_values_in_dom (par : Parent ℝ) (s s' : DD ℝ) (hn : 1 ≤ s.n) (hp : 0 ≤ s.prec) (hl : s.dom.lo ≤ s.dom.hi)
+    (hm : s.median = false ∨ Scalar.eqb (par.P s.dom.hi) (par.P s.dom.lo) = true)
+    (hr : resolved par s = true) (h : eqProp par s = .ok s') : valuesInDom s' = true := by
+  have hd := eqProp_resolved par s s' hp hr h
+  obtain ⟨m, _, hs'⟩ := eqProp_ok par s s' h
+  have hdom : s'.dom = s.dom := by rw [hs']
+  have hb := eqPropRaw_bounds_mem par s hn hl
+  have hall : ∀ x ∈ s.dom.lo :: (eqPropRaw par s).1 ++ [s.dom.hi], s.dom.lo ≤ x ∧ x ≤ s.dom.hi := by
+    intro x hx
+    simp only [List.cons_append, List.mem_cons, List.mem_append, List.not_mem_nil, or_false] at hx
+    rcases hx with rfl | hx | rfl
+    · exact ⟨le_rfl, hl⟩
+    · exact hb x hx
+    · exact ⟨hl, le_rfl⟩
+  have hraw : ∀ v ∈ (eqPropRaw par s).2, s.dom.lo ≤ v ∧ v ≤ s.dom.hi := by
+    have key : ∀ (g : ℝ × ℝ → ℝ), (∀ q, (s.dom.lo ≤ q.1 ∧ q.1 ≤ s.dom.hi) → (s.dom.lo ≤ q.2 ∧ q.2 ≤ s.dom.hi) → s.dom.lo ≤ g q ∧ g q ≤ s.dom.hi) →
+        ∀ v ∈ (pairs (s.dom.lo :: (eqPropRaw par s).1 ++ [s.dom.hi])).map g, s.dom.lo ≤ v ∧ v ≤ s.dom.hi := by
+      intro g hg v hv
+      obtain ⟨q, hq, rfl⟩ := List.mem_map.1 hv
+      obtain ⟨q1, q2⟩ := pairs_mem _ q hq
+      exact hg q (hall _ q1) (hall _ q2)
+    have hv := eqPropRaw_values par s hm
+    -- redo the case distinction of `eqPropRaw` to name the function
+    by_cases hne : Scalar.eqb (par.P s.dom.hi) (par.P s.dom.lo) = true
+    · have e : (eqPropRaw par s).2 = (pairs (s.dom.lo :: (eqPropRaw par s).1 ++ [s.dom.hi])).map midValue := by
+        unfold eqPropRaw; simp only [hne, Bool.not_true, Bool.false_eq_true, if_false]
+      rw [e]; exact key midValue (fun q a b => midValue_hull _ _ q a b)
+    · have hmed : s.median = false := by rcases hm with h | h; exact h; exact absurd h hne
+      have e : (eqPropRaw par s).2 = (pairs (s.dom.lo :: (eqPropRaw par s).1 ++ [s.dom.hi])).map
+          (meanValue par ((par.P s.dom.hi - par.P s.dom.lo) / nat s.n)) := by
+        unfold eqPropRaw; simp only [hne, Bool.not_false, if_true, hmed, Bool.false_eq_true, if_false]
+      rw [e]; exact key _ (fun q a b => meanValue_hull par _ _ _ q a b)
+  simp only [valuesInDom, DD.cats, TMap.keys, hd, hdom, List.map_map, List.all_eq_true, List.mem_map, Function.comp,
+    Bool.and_eq_true, ScalarReal.leb_iff]
+  rintro v ⟨x, hx, rfl⟩
+  exact hraw x hx
+
 theorem eqInt_bounds_mem (par : Parent ℝ) (s r : DD ℝ) (hn : 1 ≤ s.n) (hl : s.dom.lo ≤ s.dom.hi) (h : eqInt par s = .ok r) :
     ∀ b ∈ r.bounds, s.dom.lo ≤ b ∧ b ≤ s.dom.hi := by
   obtain ⟨m, _, rfl⟩ := eqInt_ok par s r h
